@@ -1508,6 +1508,192 @@ theorem no_lost_wakeup {s : St} (h : Reach s) (hp : s.pump = .sel) (h1 : s.reqs 
 example : ∃ s, Reach s ∧ s.pump = .sel ∧ Dispatchable s :=
   ⟨_, ⟨true, true, true, [.connect, .sget, .push 1 0, .notify], rfl⟩, rfl, ⟨0, rfl, by decide, rfl⟩⟩
 
+
+/-! ## C02: CALLs are written in the order in which the requests were accepted (server dispatcher, every interleaving)
+
+`used` lists the accepted ids, newest first: `older u a b` = `a` was accepted before `b`. With the send lock (a request is
+only pushed into the client's registered queue) queue objects are filled one after the other, so everything in an older
+queue object was accepted before everything in a newer one. Invariant `Ord`: the written list, every queue object and the
+sequence of queue objects are sorted by acceptance; everything written was accepted before everything unwritten in the
+client's current queue; and what the pump knows at `d2`, `d3` and inside `Write`. -/
+
+def older (u : List Nat) (a b : Nat) : Prop := u.idxOf b < u.idxOf a
+
+theorem older_cons {u : List Nat} {a b id : Nat} (ha : a ≠ id) (hb : b ≠ id) (h : older u a b) : older (id :: u) a b := by
+  unfold older at *
+  simp only [List.idxOf_cons]
+  have e1 : (id == a) = false := by simpa using Ne.symm ha
+  have e2 : (id == b) = false := by simpa using Ne.symm hb
+  simp only [e1, e2, cond_false]; omega
+
+theorem older_new {u : List Nat} {a id : Nat} (ha : a ≠ id) : older (id :: u) a id := by
+  unfold older
+  simp only [List.idxOf_cons]
+  have e1 : (id == a) = false := by simpa using Ne.symm ha
+  simp [e1]
+
+structure Ord (s : St) : Prop where
+  last : ∀ i, s.cur = some i → i + 1 = s.qs.length
+  wsort : s.wire.Pairwise (older s.used)
+  qsort : ∀ i, (getQ s.qs i).Pairwise (older s.used)
+  cross : ∀ i j, i < j → ∀ x ∈ getQ s.qs i, ∀ y ∈ getQ s.qs j, older s.used x y
+  front : ∀ i, s.cur = some i → ∀ w ∈ s.wire, ∀ x ∈ getQ s.qs i, x ∉ s.wire → older s.used w x
+  pd2 : ∀ qj, s.pump = .d2 qj → ∀ w ∈ s.wire, ∀ x ∈ getQ s.qs qj, older s.used w x
+  pwr : ∀ h, (s.pump = .d3 h ∨ s.pump = .wr h) →
+    (∀ w ∈ s.wire, older s.used w h) ∧ (∀ i, s.cur = some i → ∀ x ∈ getQ s.qs i, x ≠ h → x ∉ s.wire → older s.used h x)
+
+theorem ord_init (t d : Bool) : Ord { tmo := t, dropW := d } := by
+  refine ⟨?_, ?_, ?_, ?_, ?_, ?_, ?_⟩ <;> simp [getQ]
+
+
+@[simp] theorem complete_sendLock (s : St) (id qi : Nat) : (complete s id qi).1.sendLock = s.sendLock := by
+  unfold complete; split
+  · split <;> rfl
+  · rfl
+
+theorem pumpStep_sendLock {s s' : St} (hs : pumpStep s = some s') : s'.sendLock = s.sendLock := by
+  unfold pumpStep at hs
+  cases hp : s.pump <;> simp only [hp] at hs
+  all_goals first
+    | (cases hs; done)
+    | (cases hs; simp; done)
+    | ((repeat' split at hs) <;> first | (cases hs; done) | (cases hs; simp; done))
+
+theorem readerStep_sendLock {s s' : St} (hs : readerStep s = some s') : s'.sendLock = s.sendLock := by
+  unfold readerStep at hs
+  cases hr : s.reader <;> simp only [hr] at hs
+  all_goals first
+    | (cases hs; done)
+    | (cases hs; simp; done)
+
+theorem step_sendLock {s s' : St} (l : Label) (hs : step s l = some s') : s'.sendLock = s.sendLock := by
+  cases l <;> simp only [step] at hs
+  case pstep => exact pumpStep_sendLock hs
+  case rstep => exact readerStep_sendLock hs
+  all_goals first
+    | (cases hs; done)
+    | ((repeat' split at hs) <;> first | (cases hs; done) | (cases hs; rfl))
+
+
+/-- a step that leaves queues, registered queue and ghost lists alone, and does not enter `d2`, `d3`, `Write` -/
+theorem ord_same {s s' : St} (h : Ord s) (e1 : s'.cur = s.cur) (e2 : s'.qs = s.qs) (e4 : s'.used = s.used) (e5 : s'.wire = s.wire)
+    (hd2 : ∀ qj, s'.pump = .d2 qj → s.pump = .d2 qj)
+    (hwr : ∀ hh, (s'.pump = .d3 hh ∨ s'.pump = .wr hh) → (s.pump = .d3 hh ∨ s.pump = .wr hh)) : Ord s' := by
+  refine ⟨?_, ?_, ?_, ?_, ?_, ?_, ?_⟩
+  · rw [e1, e2]; exact h.last
+  · rw [e4, e5]; exact h.wsort
+  · rw [e2, e4]; exact h.qsort
+  · rw [e2, e4]; exact h.cross
+  · rw [e1, e2, e4, e5]; exact h.front
+  · intro qj hp; rw [e2, e4, e5]; exact h.pd2 qj (hd2 qj hp)
+  · intro hh hp; rw [e1, e2, e4, e5]; exact h.pwr hh (hwr hh hp)
+
+/-- popping the head of a queue object -/
+theorem ord_pop {s s' : St} (h : Ord s) (id qi : Nat) (t : List Nat) (hq0 : getQ s.qs qi = id :: t)
+    (e1 : s'.cur = s.cur) (e2 : s'.qs = setQ s.qs qi t) (e4 : s'.used = s.used) (e5 : s'.wire = s.wire)
+    (hd2 : ∀ qj, s'.pump = .d2 qj → s.pump = .d2 qj)
+    (hwr : ∀ hh, (s'.pump = .d3 hh ∨ s'.pump = .wr hh) → (s.pump = .d3 hh ∨ s.pump = .wr hh)) : Ord s' := by
+  have hlt : qi < s.qs.length := by
+    apply Classical.byContradiction; intro hn
+    rw [getQ_oob s.qs qi (by omega)] at hq0; cases hq0
+  have hq : ∀ j, getQ (setQ s.qs qi t) j = if qi = j then t else getQ s.qs j := by
+    intro j; rw [getQ_setQ]; by_cases e : qi = j
+    · subst e; simp [hlt]
+    · simp [e]
+  have sub' : ∀ j x, x ∈ getQ (setQ s.qs qi t) j → x ∈ getQ s.qs j := by
+    intro j x hx; rw [hq] at hx
+    by_cases e : qi = j
+    · subst e; simp only [if_true] at hx; rw [hq0]; exact List.mem_cons_of_mem _ hx
+    · simpa [e] using hx
+  refine ⟨?_, ?_, ?_, ?_, ?_, ?_, ?_⟩
+  · rw [e1, e2]; intro i hc; have := h.last i hc; simp [setQ]; exact this
+  · rw [e4, e5]; exact h.wsort
+  · rw [e2, e4]; intro i; rw [hq]
+    by_cases e : qi = i
+    · subst e; simp only [if_true]
+      have := h.qsort qi; rw [hq0] at this; exact (List.pairwise_cons.mp this).2
+    · simp only [e, if_false]; exact h.qsort i
+  · rw [e2, e4]; intro i j hij x hx y hy; exact h.cross i j hij x (sub' i x hx) y (sub' j y hy)
+  · rw [e1, e2, e4, e5]; intro i hc w hw x hx hxw; exact h.front i hc w hw x (sub' i x hx) hxw
+  · intro qj hp; rw [e2, e4, e5]; intro w hw x hx; exact h.pd2 qj (hd2 qj hp) w hw x (sub' qj x hx)
+  · intro hh hp; rw [e1, e2, e4, e5]
+    have := h.pwr hh (hwr hh hp)
+    exact ⟨this.1, fun i hc x hx => this.2 i hc x (sub' i x hx)⟩
+
+/-- a push into the registered queue (send lock) -/
+theorem ord_push {s : St} (hi : Inv s) (h : Ord s) (id qi : Nat) (hid : id ∉ s.used) (hc : s.cur = some qi)
+    (s' : St) (e1 : s'.cur = s.cur) (e2 : s'.qs = setQ s.qs qi (getQ s.qs qi ++ [id])) (e4 : s'.used = id :: s.used)
+    (e5 : s'.wire = s.wire) (ep : s'.pump = s.pump) : Ord s' := by
+  have ne_used : ∀ x, x ∈ s.used → x ≠ id := fun x hx e => hid (e ▸ hx)
+  have qused : ∀ j x, x ∈ getQ s.qs j → x ∈ s.used := fun j x hx => hi.g.sub j x hx
+  have wused : ∀ w, w ∈ s.wire → w ∈ s.used := fun w hw => hi.g.wsub w hw
+  have lift : ∀ a b, a ∈ s.used → b ∈ s.used → older s.used a b → older (id :: s.used) a b :=
+    fun a b ha hb => older_cons (ne_used a ha) (ne_used b hb)
+  have hlast := h.last qi hc
+  have hlt : qi < s.qs.length := by omega
+  have hq : ∀ j, getQ (setQ s.qs qi (getQ s.qs qi ++ [id])) j = if qi = j then getQ s.qs qi ++ [id] else getQ s.qs j := by
+    intro j; rw [getQ_setQ]; by_cases e : qi = j
+    · subst e; simp [hlt]
+    · simp [e]
+  refine ⟨?_, ?_, ?_, ?_, ?_, ?_, ?_⟩
+  · rw [e1, e2]; intro i hci; have := h.last i hci; simp [setQ]; exact this
+  · rw [e4, e5]
+    exact h.wsort.imp_of_mem (fun {a b} ha hb hab => lift a b (wused a ha) (wused b hb) hab)
+  · rw [e2, e4]; intro i; rw [hq]
+    by_cases e : qi = i
+    · subst e; simp only [if_true]
+      rw [List.pairwise_append]
+      refine ⟨(h.qsort qi).imp_of_mem (fun {a b} ha hb hab => lift a b (qused qi a ha) (qused qi b hb) hab), by simp, ?_⟩
+      intro a ha b hb; simp at hb; subst hb
+      exact older_new (ne_used a (qused qi a ha))
+    · simp only [e, if_false]
+      exact (h.qsort i).imp_of_mem (fun {a b} ha hb hab => lift a b (qused i a ha) (qused i b hb) hab)
+  · rw [e2, e4]; intro i j hij x hx y hy
+    rw [hq] at hx hy
+    by_cases ei : qi = i
+    · -- nothing lies above the registered queue object
+      subst ei
+      have : getQ s.qs j = [] := getQ_oob s.qs j (by omega)
+      have ej : ¬ qi = j := by omega
+      simp only [ej, if_false] at hy; rw [this] at hy; cases hy
+    · simp only [ei, if_false] at hx
+      by_cases ej : qi = j
+      · subst ej; simp only [if_true] at hy
+        rcases List.mem_append.mp hy with hy | hy
+        · exact lift x y (qused i x hx) (qused qi y hy) (h.cross i qi hij x hx y hy)
+        · simp at hy; subst hy; exact older_new (ne_used x (qused i x hx))
+      · simp only [ej, if_false] at hy
+        exact lift x y (qused i x hx) (qused j y hy) (h.cross i j hij x hx y hy)
+  · rw [e1, e2, e4, e5]; intro i hci w hw x hx hxw
+    rw [hc] at hci; cases hci
+    rw [hq] at hx; simp only [if_true] at hx
+    rcases List.mem_append.mp hx with hx | hx
+    · exact lift w x (wused w hw) (qused qi x hx) (h.front qi hc w hw x hx hxw)
+    · simp at hx; subst hx; exact older_new (ne_used w (wused w hw))
+  · intro qj hp; rw [ep] at hp; rw [e2, e4, e5]; intro w hw x hx
+    rw [hq] at hx
+    by_cases e : qi = qj
+    · subst e; simp only [if_true] at hx
+      rcases List.mem_append.mp hx with hx | hx
+      · exact lift w x (wused w hw) (qused qi x hx) (h.pd2 qi hp w hw x hx)
+      · simp at hx; subst hx; exact older_new (ne_used w (wused w hw))
+    · simp only [e, if_false] at hx
+      exact lift w x (wused w hw) (qused qj x hx) (h.pd2 qj hp w hw x hx)
+  · intro hh hp; rw [ep] at hp; rw [e1, e2, e4, e5]
+    have hpi := hi.pump
+    have hhu : hh ∈ s.used := by
+      rcases hp with hp | hp <;> rw [hp] at hpi <;> simp only [PI] at hpi
+      · exact hpi.2.2.1
+      · exact hpi.2.1
+    have := h.pwr hh hp
+    refine ⟨fun w hw => lift w hh (wused w hw) hhu (this.1 w hw), ?_⟩
+    intro i hci x hx hne hxw
+    rw [hc] at hci; cases hci
+    rw [hq] at hx; simp only [if_true] at hx
+    rcases List.mem_append.mp hx with hx | hx
+    · exact lift hh x hhu (qused qi x hx) (this.2 qi hc x hx hne hxw)
+    · simp at hx; subst hx; exact older_new (ne_used hh hhu)
+
 /-! ### non-vacuity and the defect the model exposed -/
 
 /-- the interleaving of scenario `s-orphan-write-fails`: the client reconnects between the pump's queue lookup and its
